@@ -20,7 +20,7 @@ BOUNDS = {
     "quick": "programs = CP models over 3 variables (5 for sums) with domains drawn from {0..2,1..3,-1..1,0..1,{2},0..3}: every linear shape of "
              "the operator grammar (20 shapes x ==/!=) x 6 VERIF_SEED-sampled instantiations, all_different, sum_eq/le/ge with 0..5 terms (repeats "
              "allowed), circuit on 0..n-1 domains for n=1..5 and on arbitrary successor domains, no_overlap, cumulative incl. two instances with "
-             ">10 simultaneously active start literals, 150 two-constraint programs and global+simple pairs in both orders",
+             ">10 simultaneously active start literals, 150 two-constraint programs and global+simple pairs in both orders; 7 compound-expression shapes (Expr +, -, * on either side), degenerate globals (empty / singleton lists, zero durations), no_overlap over every ordered pair of 6 heterogeneous windows x 7 duration pairs, sums of 1..5 terms systematically, zero-weight-variable pairs",
     "thorough": "40 instantiations per linear shape, 10x the global-constraint samples, 3000 two-constraint programs",
 }
 OUTSIDE = "programs outside the sampled instantiations (the grammar is covered shape-by-shape, instantiations are VERIF_SEED-sampled); larger domains"
